@@ -27,7 +27,7 @@ ASSUMPTIONS = E1_ASSUMPTIONS + [
     "stdout blocks: each page is followed by one or two newline characters (pages end in a newline, so 'one empty line' "
     "is ambiguous by one); order between directories is not constrained",
     "inputs are diagnostic-free by construction (no log line is expected on stdout in stdout mode)"]
-PROBES = ["stdout_twin_nested_in_input", "module_with_crlf", "hidden_directory", "symlinked_module", "input_through_symlink", "output_dir_from_settings_file", "mode_stdout", "mode_o", "out_nested_deep", "out_parent", "out_prepopulated", "out_stale_page", "out_new_ancestors",
+PROBES = ["api_output_through_symlink_dotdot", "stdout_twin_nested_in_input", "module_with_crlf", "hidden_directory", "symlinked_module", "input_through_symlink", "output_dir_from_settings_file", "mode_stdout", "mode_o", "out_nested_deep", "out_parent", "out_prepopulated", "out_stale_page", "out_new_ancestors",
           "out_rel", "out_abs", "single_file_input", "stdout_ge_2_pages", "stdout_multi_dir", "config_dir_absent",
           "fault_fired", "fault_run_failed", "settings_affecting_content"]
 
@@ -374,6 +374,33 @@ def evaluate(spec, ctx):
                                             var["listing_explicit"], var.get("faults")]), bool(nontriv))
             if viols:
                 break
+        # --- the Python API with the output directory spelled through a symbolic link and '..' (the CLI never passes
+        #     such a spelling on: confuse collapses it textually first).  The directory requested is the one the
+        #     operating system resolves: <target of uplink>/../apidocs.  Judged on the before/after snapshots only.
+        if not viols and mode == "o" and spec["input_kind"] == "dir" and "linkroot" in spec["files"]:
+            core.materialise(base, {"elsewhere/store/deep": None,
+                                    "uplink": {"symlink": "{BASE}/elsewhere/store/deep"}})
+            want_dir = "elsewhere/store/apidocs"
+            cminx = core.import_cminx()
+            rec = bool(spec["recursive"])
+
+            def entry(argv, _cm=cminx):
+                st_ = _cm.Settings()
+                st_.input.recursive = rec
+                st_.output.directory = argv[1]
+                _cm.document(argv[0], st_)
+            r9 = core.run_call(base, {"cwd": "", "argv": [base + "/" + spec["proj"], base + "/uplink/../apidocs"],
+                                      "listing_key": 0}, entry=entry)
+            ctx.note_call(r9)
+            ctx.probes["api_output_through_symlink_dotdot"] += 1
+            if r9.status != 0:
+                viols.append(viol("run-failed", f"API call with output uplink/../apidocs: status {r9.status} exc {r9.exc}"))
+            for kind, rel in effects_outside(r9, []):
+                if not (rel == want_dir or rel.startswith(want_dir + "/")):
+                    viols.append(viol("effect-outside-output", f"API call, output directory spelled <symlink>/../apidocs "
+                                      f"(= {want_dir}): snapshot shows {kind} {rel}", target="other", op="snapshot"))
+                    break
+            remove_outputs(base, [want_dir, "apidocs"])
     finally:
         core.drop_base(base)
     return _dedup(viols)
@@ -456,7 +483,10 @@ MANIFEST = {
                   "rename/... , whole-sandbox snapshot diff (catches effects through any API), untouched unrelated files in "
                   "pre-populated output directories, and for stdout mode: no mutating call at all and stdout exactly the "
                   "concatenation of the pages the same invocation writes with -o (sorted within a directory).  Fault shards "
-                  "inject ENOSPC/EACCES/EIO and mkdir races; containment must hold on failing runs too.",
+                  "inject ENOSPC/EACCES/EIO and mkdir races; containment must hold on failing runs too.  A nested output directory "
+                  "may have siblings whose names start like its own, and the -o twin of a stdout run is then written into that "
+                  "nested placement.  In worlds with symbolic links one Python API call spells the output directory <symlink>/../apidocs: "
+                  "everything it creates must lie below the directory the operating system resolves.",
     "level_note": "trusted: interposers see calls made through os/builtins/io attributes (snapshot diff backs them up inside the "
                   "sandbox); HOME/TMPDIR/XDG_* point into the sandbox so stray writes land where the snapshot sees them",
 }
